@@ -137,6 +137,13 @@ pub mod state_handle {
     //@ item src/writers/file_log_writer/state_handle.rs enum StateHandle
     //@   dropattr #[derive
     impl StateHandle {
+        /// SHIM for StateHandle::plain_write (unit `handle`): the bytes go to State::write_buffer under the state lock; same permission
+        #[verifier::external_body]
+        pub(super) fn plain_write(&self, buffer: &[u8]) -> (r: std::io::Result<()>)
+            requires
+                wb_ok(buffer@), //@label StateHandle::plain_write.perm C20,C01,C15
+            ensures r == wb_result(buffer@),
+        { unimplemented!() }
         pub closed spec fn sync_handle(&self) -> SyncHandle { self->Sync_0 }
     //@ fn src/writers/file_log_writer/state_handle.rs impl StateHandle / fn new_sync
     //@   ret r
@@ -164,8 +171,10 @@ pub mod state_handle {
 
     /// `Ok(mut buffer)` arm: the thread-local buffer is free. It is empty between calls (the arm clears it on
     /// every path: this is what keeps one record's bytes out of the next record's line).
-    pub(crate) fn sync_write_tl(handle: &SyncHandle, now: &mut DeferredNow, record: &Record, buffer: &mut Vec<u8>)
+    impl StateHandle {
+    pub(crate) fn sync_write_tl(&self, handle: &SyncHandle, now: &mut DeferredNow, record: &Record, buffer: &mut Vec<u8>)
         requires
+            self is Sync && self.sync_handle() == *handle,
             old(buffer)@.len() == 0,
             // A10: the state mutex is not poisoned (the real code panics with a message otherwise)
             !handle.poisoned(),
@@ -195,8 +204,9 @@ pub mod state_handle {
 
     /// `Err(_e)` arm: recursive logging, a temporary buffer is used; the line ending is read from the State's
     /// configuration, which `SyncHandle::new` copied into `handle.line_ending`.
-    pub(crate) fn sync_write_tmp(handle: &SyncHandle, now: &mut DeferredNow, record: &Record)
+    pub(crate) fn sync_write_tmp(&self, handle: &SyncHandle, now: &mut DeferredNow, record: &Record)
         requires
+            self is Sync && self.sync_handle() == *handle,
             !handle.poisoned(),
             // established by SyncHandle::new (SyncHandle::new.post.ending); the fields are never assigned afterwards
             handle.ending() == state_line_ending(),
@@ -220,6 +230,7 @@ pub mod state_handle {
     //@   closure ~eprint_err(ErrorCode::Format ## req super::util::reportable(ErrorCode::Format)
     //@   closure ~eprint_err(ErrorCode::Format ## ens super::util::reported(ErrorCode::Format)
     //@   rule R3 *
+    }
 }
 pub mod util_wb {
     use super::*;
